@@ -22,9 +22,9 @@ KINDS = [("general", "general"), ("on", "general"), ("general", "on"), ("on", "o
 # counterfactuals tried in this order; the first that brings the block within tolerance names the finding(s)
 ATTRIBUTION = [
     ("tailcut-left-end", "no-tail-cut"),
+    ("closed-form-conditioning", "quadrature-only"),
     ("quadrature-premature-acceptance", "finest-level"),
     ("estimate-not-a-bound", "no-radial-screen"),
-    ("closed-form-conditioning", "quadrature-only"),
     ("tailcut-left-end+quadrature-premature-acceptance", "no-tail-cut-finest-level"),
     ("tailcut-left-end+estimate-not-a-bound", "no-tail-cut+no-radial-screen"),
     ("tailcut-left-end+closed-form-conditioning+estimate-not-a-bound+quadrature-premature-acceptance", "quadrature-only-finest"),
@@ -143,18 +143,14 @@ def explore(ctx, cases=None):
     ctx.coverage.update({"blocks_against_oracle": len(cand) - unresolved, "oracle_unresolved": unresolved, "deviations": len(fails)})
     out = []
     if fails:
-        sws = tuple(dict.fromkeys(sw for _, sw in ATTRIBUTION))
-        # counterfactual runs only where they can be used: not when model and code disagree, and on at most 40 blocks
-        # (further deviating blocks stay unattributed, i.e. count as new)
-        if proofs_ok and not corr_bad:
-            pl.run_model([f[0] for f in fails[:40]], sws)
-        for r, o, err, tol in fails:
-            fid, table = attribute(r, o["v"], tol)
-            if fid is None and r.warn[0] > 0:
+        items = [{"runs": (r,), "tol": tol, "defect": (lambda ref: (lambda blocks: max(abs(x - y) for x, y in zip(blocks[0], ref))))(o["v"]), "r": r, "o": o, "err": err}
+                 for r, o, err, tol in fails]
+        pl.lazy_attribute(items, ATTRIBUTION, usable=bool(proofs_ok and not corr_bad))
+        for it in items:
+            r, o, err, tol, fid, table = it["r"], it["o"], it["err"], it["tol"], it["fid"], it["table"]
+            if fid is None and r.warn[0] > 0 and proofs_ok and not corr_bad:
                 # the library itself reported that its type-1 (local part) quadrature did not converge on this input and carried on
                 fid = "type1-quadrature-unconverged"
-            if not proofs_ok or corr_bad:
-                fid = None      # the model's counterfactuals say nothing about the code when model and code disagree
             i = max(range(len(r.vals)), key=lambda j: abs(r.vals[j] - o["v"][j]))
             out.append({"case": r.case, "request": pl.fmt_case(r.case), "error": err, "allowed": tol, "block_max": r.maxabs(), "worst_element": i,
                         "returned": r.vals[i], "exact": o["v"][i], "attributed_to": fid, "library_reported_unconverged_quadratures": list(r.warn), "counterfactual_errors": table,
